@@ -49,6 +49,31 @@ INFO = {
             "non-zero data in the ring of the flux buffer at call time (shared scratch buffer written after generation)"),
     "C20": ("3D advection: the first flux sweep overwrites instead of accumulating and the per-call reset of the flux buffer is dropped",
             "caller-supplied flux buffer with non-zero values in its outer two layers (buffer reuse)"),
+    # ---- round 2 (seeded/<id>b): a second, independent change per property, written after the checks of round 1 existed
+    "C01b": ("3D simulator reads the boundary-zone width as `kwargs.get('penalty_zone_width') or 2`: an explicit width 0 (damping off) becomes 2",
+             "3D simulator constructed with penalty_zone_width=0"),
+    "C03b": ("3D Green's-function table cached in a module-level dict keyed (nz, ny, nx, dtype) without x_range",
+             "two 3D unbounded solvers of the same shape and precision with different x_range in one process"),
+    "C06b": ("3D Peskin weights: inner piece of the x factor guarded by `<= 1.0` while the outer piece keeps `>= 1.0` (both pieces added at r == 1)",
+             "3D, peskin kernel, a marker whose x coordinate sits on a cell centre so that the scaled distance is exactly 1.0 in floating point (power-of-two dx)"),
+    "C08b": ("3D rigid-body forcing grids accumulate the torque from local_frame_relative_position_field instead of the lab-frame moment arm",
+             "sphere (or any rigid body) forcing grid with a non-uniform force distribution"),
+    "C09b": ("rod surface forcing grid computes grid_point_radius once in __init__",
+             "element radius changed after construction (stretch, taper), then positions/velocities re-evaluated"),
+    "C10b": ("virtual-boundary time_step adds to the integral only if a forcing evaluation happened since the last time_step",
+             "two consecutive time_step calls without an evaluation in between"),
+    "C11b": ("fast-diagonalisation solvers zero every mode with |eigenvalue| < sqrt(eps) * max instead of the constant mode only",
+             "float32 with a long axis (>= ~52 cells in 3D, ~60 in 2D): the smoothest non-constant modes are dropped from the solution"),
+    "C13b": ("3D boundary-zone damping: index of the z back edge computed from shape[1] (ny) instead of shape[0] (nz)",
+             "3D damping with ny != nz and width >= 2"),
+    "C16b": ("stable time step returns the advection limit alone when the viscosity is below 10*eps of the precision",
+             "0 < nu < 1.19e-6 in float32 (2.2e-15 in float64) and a quiescent or nearly quiescent flow, where the diffusion limit is the binding one"),
+    "C17b": ("EulerianFieldIO takes the grid origin as position_field.reshape(dim, -1).min(axis=1): x-y-z instead of z-y-x order",
+             "a position field whose lower corner differs between the axes"),
+    "C18b": ("restart helper picks the latest checkpoint by lexicographic sort of the file names",
+             "checkpoint indices with different digit counts in one directory (9999 and 10000)"),
+    "C19b": ("3D characteristic function: the far-field guard of the smoothed Heaviside reads `abs(phi) >= blend_width`",
+             "3D, a cell whose level set equals +blend_width exactly"),
 }
 
 
@@ -60,9 +85,13 @@ def main():
         files = sorted(set(re.findall(r"^\+\+\+ b/(\S+)", open(os.path.join(d, "patch.diff")).read(), flags=re.M)))
         conf = open(os.path.join(d, "confirm.txt")).read() if os.path.exists(os.path.join(d, "confirm.txt")) else ""
         pinned = re.findall(r"pinned tests passing: (\d+)/(\d+)", conf)
-        ev = json.load(open(os.path.join(d, "eval_quick.json"))) if os.path.exists(os.path.join(d, "eval_quick.json")) else {}
+        ev = {}
+        for evn in ("eval_quick.json", "patch.eval_quick.json"):
+            if os.path.exists(os.path.join(d, evn)):
+                ev.update(json.load(open(os.path.join(d, evn))))
         meta = {
-            "breaks_property": sid,
+            "breaks_property": sid[:3],
+            "round": 2 if sid.endswith("b") else 1,
             "change": what,
             "files": files,
             "needs_to_manifest": needs,
